@@ -100,6 +100,7 @@ class ThreadWorld:
         self.calls = [0] * self.size      # per-rank number of collective calls started (arrived)
         self.coll = {}                    # seq -> dict(op, root, data{rank: payload}, arrived set, left set)
         self.finished = [False] * self.size
+        self.blocked = set()              # ranks whose wait condition is false since the last state change
         self.failed = None                # first exception raised by any rank
         self.log = []                     # (event, rank, seq, op)
         self.ops = [[] for _ in range(self.size)]   # per-rank list of (op, root, nelem sent)
@@ -116,24 +117,41 @@ class ThreadWorld:
         if self.failed is not None:
             raise CommAborted(f"released because another rank failed: {self.failed!r}")
 
-    def _wait(self, pred, deadline, what, needs=None):
-        """wait until pred(); `needs()` returns the ranks whose future arrival is still required"""
-        while not pred():
-            self._check_abort()
-            if needs is not None:
-                gone = [q for q in needs() if self.finished[q]]
-                if gone:
-                    raise CommDeadlock(f"{what}: rank(s) {gone} finished without taking part")
-            left = deadline - time.monotonic()
-            if left <= 0:
-                raise CommTimeout(f"{what}: no progress within {self.timeout}s")
-            self.cv.wait(min(left, 0.25))
+    def _changed(self):
+        """the shared state changed: every blocked rank must re-evaluate its wait condition"""
+        self.blocked.clear()
+        self.cv.notify_all()
+
+    def _wait(self, rank, pred, deadline, what, needs=None):
+        """wait until pred(); `needs()` returns the ranks whose future arrival is still required.
+        Deadlock detection: `blocked` holds the ranks whose condition was false when evaluated after the last
+        state change; if it comes to hold every unfinished rank, nobody can ever make the state change again."""
+        try:
+            while not pred():
+                self._check_abort()
+                if needs is not None:
+                    gone = [q for q in needs() if self.finished[q]]
+                    if gone:
+                        raise CommDeadlock(f"{what}: rank(s) {gone} finished without taking part")
+                self.blocked.add(rank)
+                if len(self.blocked) == self.finished.count(False):
+                    err = CommDeadlock(f"{what}: every unfinished rank {sorted(self.blocked)} is blocked "
+                                       f"(circular wait)")
+                    self.failed = self.failed or err
+                    self.cv.notify_all()
+                    raise err
+                left = deadline - time.monotonic()
+                if left <= 0:
+                    raise CommTimeout(f"{what}: no progress within {self.timeout}s")
+                self.cv.wait(min(left, 0.25))
+        finally:
+            self.blocked.discard(rank)
 
     def _arrive(self, rank, op, root, payload, nelem):
         seq = self.calls[rank]
         deadline = self._deadline()
         if self.schedule is not None:
-            self._wait(lambda: self.pos >= len(self.schedule) or self.schedule[self.pos] == rank, deadline,
+            self._wait(rank, lambda: self.pos >= len(self.schedule) or self.schedule[self.pos] == rank, deadline,
                        f"rank {rank} waiting for its turn to arrive at collective #{seq} ({op})",
                        needs=lambda: [self.schedule[self.pos]] if self.pos < len(self.schedule) else [])
         self._check_abort()
@@ -144,7 +162,7 @@ class ThreadWorld:
             err = CollectiveMismatch(f"collective #{seq}: rank {rank} calls {op}(root={root}) but another rank "
                                      f"called {c['op']}(root={c['root']})")
             self.failed = self.failed or err
-            self.cv.notify_all()
+            self._changed()
             raise err
         c["arrived"].add(rank)
         if payload is not None:
@@ -153,7 +171,7 @@ class ThreadWorld:
         self.ops[rank].append((op, root, nelem))
         self.pos += 1
         self.log.append(("arrive", rank, seq, op))
-        self.cv.notify_all()
+        self._changed()
         return seq, c, deadline
 
     def _all_arrived(self, c):
@@ -167,14 +185,14 @@ class ThreadWorld:
         self.log.append(("complete", rank, seq, c["op"]))
         if len(c["left"]) == self.size:
             del self.coll[seq]
-        self.cv.notify_all()
+        self._changed()
 
     def _finish(self, rank, exc=None):
         with self.cv:
             self.finished[rank] = True
             if exc is not None and self.failed is None:
                 self.failed = exc
-            self.cv.notify_all()
+            self._changed()
 
 
 class ThreadComm:
@@ -195,7 +213,7 @@ class ThreadComm:
         w = self.world
         with w.cv:
             seq, c, dl = w._arrive(self.rank, "Barrier", None, None, 0)
-            w._wait(lambda: w._all_arrived(c), dl, f"rank {self.rank} in Barrier #{seq}", lambda: w._missing(c))
+            w._wait(self.rank, lambda: w._all_arrived(c), dl, f"rank {self.rank} in Barrier #{seq}", lambda: w._missing(c))
             w._leave(self.rank, seq, c)
 
     # ---- many -> root --------------------------------------------------------------------------------
@@ -206,7 +224,7 @@ class ThreadComm:
         with w.cv:
             seq, c, dl = w._arrive(self.rank, op, root, payload, payload.size)
             if self.rank == root or not w.eager:
-                w._wait(lambda: w._all_arrived(c), dl, f"rank {self.rank} in {op} #{seq}", lambda: w._missing(c))
+                w._wait(self.rank, lambda: w._all_arrived(c), dl, f"rank {self.rank} in {op} #{seq}", lambda: w._missing(c))
             if self.rank == root:
                 _write(recv, combine([c["data"][q] for q in range(w.size)]))
             w._leave(self.rank, seq, c)
@@ -233,10 +251,10 @@ class ThreadComm:
             seq, c, dl = w._arrive(self.rank, op, root, payload, nelem_fn() if self.rank == root else 0)
             if w.eager:
                 if self.rank != root:
-                    w._wait(lambda: root in c["arrived"], dl, f"rank {self.rank} in {op} #{seq}",
+                    w._wait(self.rank, lambda: root in c["arrived"], dl, f"rank {self.rank} in {op} #{seq}",
                             lambda: [] if root in c["arrived"] else [root])
             else:
-                w._wait(lambda: w._all_arrived(c), dl, f"rank {self.rank} in {op} #{seq}", lambda: w._missing(c))
+                w._wait(self.rank, lambda: w._all_arrived(c), dl, f"rank {self.rank} in {op} #{seq}", lambda: w._missing(c))
             out = deliver(c["data"][root])
             w._leave(self.rank, seq, c)
         return out
